@@ -11,26 +11,59 @@ COMMON_ASSUME = [
 ]
 
 
+CONFIG_NOTE = {
+    "std-nocheck": "rrtk built WITHOUT dimension checking",
+    "std-rel": "true release build: debug assertions and overflow checks compiled out, dimension checking on (dim_check_release)",
+    "std-rel-nocheck": "true release build without dimension checking",
+}
+
+
+def config_run(pid, config, engines):
+    """the same engines (quick bounds) in another build configuration; same violation keys: the
+    property does not depend on the configuration, so neither does the verdict"""
+    binary, _ = common.build_props(config)
+    res = common.run_engine(binary, pid, "quick", tag="-" + config)
+    if res.get("signal"):
+        raise Machinery("engine died with signal %d in configuration %s\n%s" % (res["signal"], config, res.get("stderr", "")[-1500:]))
+    for e in res["engines"]:
+        e["name"] += "[%s]" % config
+        e["rule"] = "(same engine, quick bounds, %s) %s" % (CONFIG_NOTE[config], e["rule"][:200])
+        e["samples"] = e["samples"][:1]
+        engines.append(e)
+    return engines
+
+
 def default_run(pid, tier):
+    """the std build with debug assertions on, then the true release build (assertions off)"""
+    common.build_many(["std", "std-rel", "std-nocheck"])
     binary, _ = common.build_props("std")
     res = common.run_engine(binary, pid, tier)
     if res.get("signal"):
         raise Machinery("engine died with signal %d\n%s" % (res["signal"], res.get("stderr", "")))
-    return res["engines"]
+    return config_run(pid, "std-rel", res["engines"])
 
 
 def c16_run(pid, tier):
     import c16_lifetime
-    binary, _ = common.build_props("std")
-    res = common.run_engine(binary, pid, tier)
-    engines = res["engines"]
-    if res.get("signal"):
-        # a memory fault under safe API use *is* this property's failure
-        e = common.mk_engine("c16-scratch-sweep", "scratch-slot sweep (process died)", "")
-        e["executions"] = e["states"] = e["transitions"] = 1
-        e["violations"].append(common.viol("scratch-slot:process-died-with-signal-%d" % res["signal"],
-                                           "the sweep process was killed by signal %d; stderr tail: %s" % (res["signal"], res.get("stderr", "")[-800:])))
-        engines = [e]
+    common.build_many(["std", "std-rel"])
+    engines = []
+    for config in ("std", "std-rel"):
+        binary, _ = common.build_props(config)
+        res = common.run_engine(binary, pid, tier if config == "std" else "quick", tag="" if config == "std" else "-" + config)
+        if res.get("signal"):
+            # a memory fault under safe API use *is* this property's failure
+            e = common.mk_engine("c16-scratch-sweep", "scratch-slot sweep (process died)", "")
+            e["executions"] = e["states"] = e["transitions"] = 1
+            e["violations"].append(common.viol("scratch-slot:process-died-with-signal-%d" % res["signal"],
+                                               "the sweep process (build %s) was killed by signal %d; stderr tail: %s" % (config, res["signal"], res.get("stderr", "")[-800:])))
+            engines.append(e)
+            continue
+        for e in res["engines"]:
+            if config != "std":
+                e["name"] += "[%s]" % config
+                e["rule"] = "(same engine, quick bounds, %s) %s" % (CONFIG_NOTE[config], e["rule"][:200])
+                e["samples"] = e["samples"][:1]
+            engines.append(e)
     engines.extend(c16_lifetime.run(tier))
     if tier == "thorough":
         import c16_miri
@@ -74,8 +107,17 @@ def c17_engine(binary, pid, tier, tag=""):
 
 def c17_run(pid, tier):
     import c17_extra
+    common.build_many(["std", "std-rel", "libm"])
     binary, _ = common.build_props("std")
     engines = c17_engine(binary, pid, tier)
+    # true release build (debug assertions off: std's own precondition checks are inactive, so a
+    # miscounted Rc/Arc shows up in the drop-flag oracle instead of an abort)
+    binary, _ = common.build_props("std-rel")
+    for e in c17_engine(binary, pid, "quick", tag="-std-rel"):
+        e["name"] += "[std-rel]"
+        e["rule"] = "(same engine, quick bounds, %s) %s" % (CONFIG_NOTE["std-rel"], e["rule"][:200])
+        e["samples"] = e["samples"][:1]
+        engines.append(e)
     # the alloc-without-std build has its own to_dyn! definition: run the aliasing engine there too
     binary, _ = common.build_props("libm")
     res = {"engines": c17_engine(binary, pid, "quick", tag="-alloc-only")}
@@ -147,16 +189,7 @@ def dual_run(pid, tier):
     """engines in the default build and again with dimension checking compiled out (same keys:
     the property does not depend on the configuration, so neither does the verdict)"""
     engines = default_run(pid, tier)
-    binary, _ = common.build_props("std-nocheck")
-    res = common.run_engine(binary, pid, "quick", tag="-nocheck")
-    if res.get("signal"):
-        raise Machinery("engine died with signal %d in the unchecked build" % res["signal"])
-    for e in res["engines"]:
-        e["name"] += "[std-nocheck]"
-        e["rule"] = "(same engine, quick bounds, rrtk built WITHOUT dimension checking) " + e["rule"][:200]
-        e["samples"] = e["samples"][:1]
-        engines.append(e)
-    return engines
+    return config_run(pid, "std-nocheck", engines)
 
 
 def spec(level, extra_assume=None, run=default_run):
